@@ -42,8 +42,8 @@ theorem addVar_vars {ctx ctx' : Ctx} {n : String} {v : Val} (h : addVar ctx n v 
     | none => exact hl
     | some w => simp [hl] at hs
 
-theorem stepTail_names {cfg : Config} {inject : Option (List (String × GateDef))} {acc a1 : Acc} {o : Obj} {st : St}
-    (ha : NamesInv acc) (h : stepTail cfg inject acc o st = .ok a1) : NamesInv a1 := by
+theorem stepTail_names {cfg : Config} {mode : KeyMode} {inject : Option (List (String × GateDef))} {acc a1 : Acc} {o : Obj} {st : St}
+    (ha : NamesInv acc) (h : stepTail cfg mode inject acc o st = .ok a1) : NamesInv a1 := by
   have hreg : ∀ (n : String) (v : Val) (c : Ctx), nameOf v = n → addVar acc.ctx n v = .ok c →
       NamesInv { acc with ctx := c, st := st, registers := acc.registers ++ [v] } := by
     intro n v c hn hc
@@ -793,9 +793,9 @@ structure HInv (acc : Acc) : Prop where
   gctx : acc.st.gctx = acc.natives.map wrapG
   nat : NatOK acc.natives
 
-theorem stepTail_header {cfg : Config} {inject : Option (List (String × GateDef))} {acc a1 : Acc} {o : Obj}
+theorem stepTail_header {cfg : Config} {mode : KeyMode} {inject : Option (List (String × GateDef))} {acc a1 : Acc} {o : Obj}
     (ha : HInv acc) (ho : (∃ v, o = .val v) ∨ ∃ n, o = .usepulses n)
-    (h : stepTail cfg inject acc o acc.st = .ok a1) : HInv a1 := by
+    (h : stepTail cfg mode inject acc o acc.st = .ok a1) : HInv a1 := by
   rcases ho with ⟨v, rfl⟩ | ⟨n, rfl⟩
   · cases v <;> simp only [stepTail, throw_eq] at h <;> first
       | cases h
@@ -810,9 +810,13 @@ theorem stepTail_header {cfg : Config} {inject : Option (List (String × GateDef
       | some gs =>
         simp [hi, pure, Except.pure] at h
         rw [← h]
-        refine ⟨ha.memo, ha.stmts, ha.macros, ?_, updateGates_natOK inject gs _ ha.nat⟩
-        simp only []
-        rw [ha.gctx, updateGates_map]
+        refine ⟨?_, ha.stmts, ha.macros, ?_, updateGates_natOK inject gs _ ha.nat⟩
+        · show (if mode = KeyMode.noReset then acc.st.memo else []) = []
+          split
+          · exact ha.memo
+          · rfl
+        · simp only []
+          rw [ha.gctx, updateGates_map]
     · simp only [hau] at h
       cases h
       exact ⟨ha.memo, ha.stmts, ha.macros, ha.gctx, ha.nat⟩
@@ -880,9 +884,9 @@ theorem HInv.toBInv {cfg : Config} {acc : Acc} (h : HInv acc) : BInv cfg acc := 
     apply lookup_isSome_of_mem_keys
     simpa [wrapG, List.map_map] using hn
 
-theorem stepTail_body {cfg : Config} {inject : Option (List (String × GateDef))} {acc a1 : Acc} {o : Obj} {st : St}
+theorem stepTail_body {cfg : Config} {mode : KeyMode} {inject : Option (List (String × GateDef))} {acc a1 : Acc} {o : Obj} {st : St}
     (ha : BInv cfg acc) (hp : KPost cfg acc.st o st) (hnu : ∀ n, o ≠ .usepulses n)
-    (h : stepTail cfg inject acc o st = .ok a1) : BInv cfg a1 := by
+    (h : stepTail cfg mode inject acc o st = .ok a1) : BInv cfg a1 := by
   have hshape : ∀ n e, st.gctx.lookup n = some e →
       (∃ g, e = .gdef g ∧ (n, g) ∈ acc.natives) ∨ (∃ m ∈ acc.macros, e = .macro m) ∨
         (cfg.anonymousAllowed = true ∧ ∃ k, e = .gdef (anonDef n k)) := by
